@@ -389,6 +389,27 @@ def mon_c04(spec, rec, solver_obj=None):
 
 
 # ---------------------------------------------------------------- C05
+def current_termination(spec, si):
+    """the termination in force at op index si (spec['termination'] or the latest settermination op before it)"""
+    t = spec.get("termination")
+    for op in spec["ops"][:si]:
+        if op[0] == "settermination":
+            t = op[1]
+    return t
+
+
+def evl_conditions(t):
+    """the (generations, evaluations) pairs of EvaluationLimits conditions whose truth makes the whole condition true
+    (the condition itself, or a member of an Or)"""
+    if not t:
+        return []
+    if t[0] == "EVL":
+        return [(t[1], t[2])]
+    if t[0] == "Or":
+        return evl_conditions(t[1]) + evl_conditions(t[2])
+    return []
+
+
 def mon_c05(spec, rec):
     out = []
     solver = spec["solver"]
@@ -423,6 +444,12 @@ def mon_c05(spec, rec):
                 reasons.append("exit requested")
             if pre["term_cond"]:
                 reasons.append("termination condition holds")
+            else:
+                # the EvaluationLimits CONDITION by its documented inequality (iterations >= generations or
+                # fcalls >= evaluations), evaluated here - not by the code under test
+                for g, e in evl_conditions(current_termination(spec, si)):
+                    if (e is not None and pre["evaluations"] >= e) or (g is not None and pre["generations"] >= g):
+                        reasons.append("EvaluationLimits(generations=%r, evaluations=%r) holds at generations=%d, evaluations=%d" % (g, e, pre["generations"], pre["evaluations"]))
             if reasons and ran:
                 out.append(("%s/iteration-begun-when-stopped" % solver, "a further iteration ran although " + ", ".join(reasons), {"op_index": si}))
             # the limit bounds the evaluations really MADE (not only the solver's own counter; DE2 re-reads its counter
@@ -460,8 +487,15 @@ def mon_c05(spec, rec):
         # message truthfulness
         msg = sn["ret"]
         if msg:
-            if msg.startswith("EvaluationLimits"):
-                if not ((sn["maxfun"] is not None and sn["evaluations"] >= sn["maxfun"]) or (sn["maxiter"] is not None and sn["generations"] >= sn["maxiter"])):
+            if msg.startswith("EvaluationLimits with {'generations'"):
+                # the termination CONDITION EvaluationLimits (its doc lists generations first): true by its documented inequality?
+                if not any((e is not None and sn["evaluations"] >= e) or (g is not None and sn["generations"] >= g)
+                           for g, e in evl_conditions(current_termination(spec, si + 1))):
+                    out.append(("%s/stop-message-false" % solver, "stop message %r but evaluations=%d generations=%d" % (msg, sn["evaluations"], sn["generations"]), {"op_index": si}))
+            elif msg.startswith("EvaluationLimits"):
+                evl_ok = any((e is not None and sn["evaluations"] >= e) or (g is not None and sn["generations"] >= g)
+                             for g, e in evl_conditions(current_termination(spec, si + 1)))      # the CONDITION of that name
+                if not evl_ok and not ((sn["maxfun"] is not None and sn["evaluations"] >= sn["maxfun"]) or (sn["maxiter"] is not None and sn["generations"] >= sn["maxiter"])):
                     out.append(("%s/stop-message-false" % solver, "stop message %r but evaluations=%d generations=%d" % (msg, sn["evaluations"], sn["generations"]), {"op_index": si}))
             elif msg.startswith("SolverInterrupt"):
                 if not sn["earlyexit"]:
